@@ -44,7 +44,7 @@ where
                 v.clone().powi_scalar(2).mul_scalar(-1.0 / 18.0) - x.powi_scalar(2).mul_scalar(0.5) * v.clone().neg().exp() - v.mul_scalar(0.5)
             }
             AnyGT::Quartic => p.powi_scalar(4).sum().mul_scalar(-0.25),
-            AnyGT::LogX => p.log().sum(),
+            AnyGT::LogX => (p.clone().log() - p).sum(),
             AnyGT::SqrtDom => (p.clone().powi_scalar(2).mul_scalar(-0.5) + p.sqrt().log()).sum(),
             AnyGT::Box1 => {
                 let inside = p.clone().abs().floor().clamp(0.0, 1.0).neg().add_scalar(1.0);
